@@ -118,9 +118,10 @@ fn analysis_rule(r: &Value) -> Rule {
     // (r2 is also a sampled rule: always in, unless the request carries the override "false")
     if id == "r2" { v["stop"] = json!(true); v["source"]["sampling"] = json!(100); }
     // r1 acts on a backend 404 only, and its example says the backend answers 404
-    // r4 acts on a backend 404 too but does NOT redirect: only its header and body filters depend on the backend's code
+    // r4 acts on a backend 404 too (and on a 200, the code an analysis assumes when the example gives none) but does NOT redirect:
+    // only its header and body filters depend on the backend's code
     let on404 = id == "r1" || id == "r4";
-    if on404 { v["source"]["response_status_codes"] = json!([404]); }
+    if on404 { v["source"]["response_status_codes"] = if id == "r4" { json!([404, 200]) } else { json!([404]) }; }
     if id == "r4" { v["status_code"] = Value::Null; v["target"] = Value::Null; }
     if id == "r3" { v["reset"] = json!(true); v["configuration_reset_unit_id"] = json!("u-reset-r3"); }
     v["redirect_unit_id"] = json!(format!("u-{}", id));
